@@ -123,8 +123,12 @@ func (s *scen) Reset() {
 	if _, err := system.LoadRules(s.rules); err != nil {
 		panic(err)
 	}
-	if len(system.GetRules()) != len(s.rules) {
-		panic("harness: system rule not accepted")
+	// every rule of the set is valid (IsValidSystemRule): how many of them the module reports is
+	// C13's subject; here the behaviour is judged against the rules that were loaded
+	for _, r := range s.rules {
+		if err := system.IsValidSystemRule(r); err != nil {
+			panic("harness: invalid system rule in a configuration: " + err.Error())
+		}
 	}
 }
 
@@ -324,6 +328,18 @@ func configs(quick bool) []Config {
 		out = append(out, Config{[]RSpec{single[p[0]], single[p[1]]}})
 	}
 	out = append(out, Config{[]RSpec{single[1], single[3], single[7]}}, Config{[]RSpec{single[5], single[9], single[2]}})
+	// several rules of ONE metric type: every one of them is in force, whatever their order, triggers
+	// and strategies
+	same := [][]RSpec{
+		{{Q, 1, false}, {Q, 2, false}}, {{Q, 2, false}, {Q, 1, false}}, {{C, 2, false}, {C, 1, false}}, {{RT, 5, false}, {RT, 3, false}},
+		{{L, 1.0, true}, {L, 1.2, false}}, {{L, 1.2, false}, {L, 1.0, true}}, {{CPU, 0.5, true}, {CPU, 0.6, false}},
+	}
+	if quick {
+		same = [][]RSpec{same[1], same[2], same[4], same[5], same[6]}
+	}
+	for _, rs := range same {
+		out = append(out, Config{rs})
+	}
 	return out
 }
 
